@@ -294,6 +294,7 @@ class Interp:
         self.repo_prefix = repo_prefix
         self.functions_entered = {}     # spec -> info (for evidence)
         self.loop_hooks = {}            # (spec, ordinal) -> hook
+        self.stmt_hook = None           # callable(interp, stmt, frame) run before every interpreted statement (asynchronous-interrupt points)
         self.forward = {}               # id(numeric array) -> (array, object array that replaced it)
         self._ifunc_cache = {}
         self.native_prefixes = []
@@ -666,6 +667,8 @@ class Interp:
         self.steps += 1
         if self.steps > self.max_steps:
             raise EngineError("step limit exceeded")
+        if self.stmt_hook is not None:
+            self.stmt_hook(self, s, frame)
         m = getattr(self, 'stmt_' + type(s).__name__, None)
         if m is None:
             raise EngineError("statement %s not supported (line %d)" % (type(s).__name__, s.lineno))
